@@ -222,8 +222,8 @@ fn judge_relations<F: Fl>(p: Prod, av: &[f64], bv: &[f64], confs: &[(Kind, f64)]
                     }
                     let h = if bs.1.is_finite() && bs.2.is_finite() { 0.5 * (bs.2 - bs.1) } else { (y - w1.mean_f()).abs() + (e_base.get(1).map(|e| e.mean_f().abs()).unwrap_or(0.0)) * 0.0 };
                     let h = if matches!(p, Prod::Unpaired) && !(bs.1.is_finite() && bs.2.is_finite()) { (y - (e_base[0].mean_f() - e_base[1].mean_f())).abs() } else { h };
-                    // (unpaired: the effective dof is recomputed from the rounded variances: x3)
-                    match tol_pair_f::<F>(&w1, &w2, h, x, if matches!(p, Prod::Unpaired) { 3.0 } else { 1.0 }) {
+                    // (unpaired: the effective dof is recomputed from the rounded variances, and at small dof the quantile is sensitive to it: x8)
+                    match tol_pair_f::<F>(&w1, &w2, h, x, if matches!(p, Prod::Unpaired) { 8.0 } else { 1.0 }) {
                         Some(t) => {
                             let extra = if matches!(p, Prod::Unpaired) { 8.0 * F::U * (e2[0].sum_abs_f() / e2[0].n as f64 + e2[1].sum_abs_f() / e2[1].n as f64 + e_base[0].sum_abs_f() / e_base[0].n as f64) } else { 0.0 };
                             let dev = ((x - sft) - y).abs();
